@@ -50,8 +50,8 @@ func ruleC17Srv(c *Ctx) {
 			c.OK(rule, FnName(fn)+" | callers-hold", c.P.Pos(fn.Pos()), "exception: "+why, false)
 			continue
 		}
-		c.Guard(rule, fn, uses, "use of s.r", isUnlockCall,
-			Need{Desc: "server lock taken", Instr: isLockCall},
+		c.Guard(rule, fn, uses, "use of s.r", lockOrUnlock,
+			needLock("server lock taken"),
 			Need{Desc: "replica instance present", Atoms: []string{notNilAtom("$0.r")}, OkCalls: []string{fSrv + "CheckPreDeleteConditions"}})
 	}
 	if pd := c.Anchor(rule, fSrv+"CheckPreDeleteConditions"); pd != nil {
@@ -63,7 +63,7 @@ func ruleC17Srv(c *Ctx) {
 	// data path uses the read lock, management the write lock
 	for _, m := range []string{"WriteAt", "ReadAt", "Sync", "Unmap"} {
 		if fn := c.Anchor(rule, fSrv+m); fn != nil {
-			c.Guard(rule, fn, CallsTo(fn, fRep+m), "data path "+m, isUnlockCall, Need{Desc: "server read lock taken", Instr: func(in ssa.Instruction) bool {
+			c.Guard(rule, fn, CallsTo(fn, fRep+m), "data path "+m, lockOrUnlock, Need{Desc: "server read lock taken", Kill: isUnlockCall, Instr: func(in ssa.Instruction) bool {
 				return isPlainCall(in) && CalleeName(in) == "(*sync.RWMutex).RLock"
 			}})
 			// closed => error, not success
